@@ -96,7 +96,9 @@ func ruleCases(missing, aDir, aFile string) []rcase {
 
 var messages = []string{"", "bad value", "值不对", "值 bad", "x", "字", "a=b", "'带,逗号'", "'with, comma'", "see (1~2)/x",
 	// messages ending in characters of the clause separator: verbatim means nothing is trimmed from them
-	"ends with;", "ends with space ", "结尾;", "too big ;", ";", " lead"}
+	"ends with;", "ends with space ", "结尾;", "too big ;", ";", " lead",
+	// non-ASCII without any CJK ideograph: the English label
+	"can’t be empty", "Größe ungültig", "ошибка", "かな", "€5…"}
 
 func withMsg(rule, msg string) string {
 	if msg == "" {
@@ -231,6 +233,59 @@ func run(c *runner.Ctx) {
 			c.Sample(func() interface{} {
 				return map[string]interface{}{"rules": rules, "value": fmt.Sprint(rc.val.Interface())}
 			})
+		}
+	}
+
+	// (1b) a bare required after a rule that carries a message, on an empty value: the required clause has its own
+	// (default) wording - messages belong to the rule they are written on
+	c.Space("messaged-rule-then-bare-required")
+	for _, rc := range cases {
+		if rc.structs || rc.rule == "required" {
+			continue
+		}
+		for _, m := range messages {
+			if m == "" || !c.Take() {
+				continue
+			}
+			zero := reflect.Zero(rc.val.Type())
+			for _, order := range []string{"msg-first", "req-first", "req-msg-first"} {
+				rules := withMsg(rc.rule, m) + ",required"
+				wantText, wantLabel := "it is required", "explain:"
+				switch order {
+				case "req-first":
+					rules = "required," + withMsg(rc.rule, m)
+				case "req-msg-first":
+					rules = "required|need it," + rc.rule
+					wantText = "need it"
+				}
+				cars := []carrier.Kind{carrier.StructRM, carrier.Var}
+				if carrier.TagOK(rules) {
+					cars = append(cars, carrier.StructTag)
+				}
+				if k := zero.Kind(); k != reflect.Slice && k != reflect.Array {
+					cars = append(cars, carrier.Map)
+				}
+				for _, car := range cars {
+					if !carrier.Supports(car, zero) {
+						continue
+					}
+					var errStr string
+					var isNil bool
+					pan, pmsg, site := runner.Guard(func() { errStr, isNil = carrier.Validate(car, zero, rules) })
+					c.Done(true, 1)
+					det := map[string]interface{}{"rules": rules, "value": "zero " + zero.Type().String(), "carrier": car, "error": errStr}
+					if pan {
+						det["panic"] = pmsg
+						c.Violation("panic@"+site, det)
+						continue
+					}
+					cls := errparse.Parse(errStr)
+					if isNil || len(cls) != 1 || cls[0].Label != wantLabel || cls[0].Text != wantText {
+						det["expected_text"] = wantLabel + " " + wantText
+						c.Violation("required/wording-taken-from-another-rule/"+order, det)
+					}
+				}
+			}
 		}
 	}
 
